@@ -1,0 +1,15 @@
+//go:build verif
+// +build verif
+
+package capnp
+
+import "sync/atomic"
+
+// VerifReadLimit returns the remaining read-traversal budget of the
+// message.  It exists only in builds with the "verif" tag and is used by
+// the external verification harness to observe the budget; it does not
+// change any behaviour.
+func (m *Message) VerifReadLimit() uint64 {
+	m.rlimitInit.Do(m.initReadLimit)
+	return atomic.LoadUint64(&m.rlimit)
+}
